@@ -6,6 +6,7 @@ Pats == << <<1, 1, 1, 1>>,      \* 1: constant envelope, every ratio 1
            <<4, 4, 1, 4>>,      \* 3: quiet third chunk, ratio 1/4
            <<1, 3, 2, 2>>,      \* 4: ratios 1/2, 3/2, 1, 1
            <<2, 2, 4, 1>> >>    \* 5: ratios 1, 1, 2, 1/2   (exactly on the limits <<1/2, 2>>)
+CompSets2 == { <<"ns", "ew", "vt">>, <<"vt", "ew">> }
 AllCompSets == { <<"ns", "ew", "vt">>, <<"vt">>, <<"ns">>, <<"ew", "ns">>, <<"vt", "ew">>, <<"ew">> }
 Pats4 == << Pats[1], Pats[2], Pats[3], Pats[5] >>
 \* windows of two durations in one list: 4 chunks and 8 chunks (a burst or a quiet chunk in the second half of the long one)
@@ -17,4 +18,7 @@ Lims == << << <<1, 5>>, <<5, 2>> >>,      \* the defaults 0.2 .. 2.5
            << <<1, 4>>, <<4, 1>> >> >>    \* 0.25 .. 4 (ties with the 1 : 4 patterns)
 Thrs == << << <<9, 10>>, TRUE >>, << <<1, 2>>, TRUE >>, << <<3, 1>>, FALSE >>, << <<8, 1>>, FALSE >>,
           << <<1, 1>>, TRUE >> >>        \* normalised threshold 1: "reject only the loudest window(s)"
+\* three of the five (limits, threshold) pairs for the secondary configurations
+Lims3 == << Lims[1], Lims[2], Lims[5] >>
+Thrs3 == << Thrs[2], Thrs[3], Thrs[5] >>
 =============================================================================
